@@ -33,23 +33,55 @@ def run(cmd, cwd=None, timeout=None, env=None, mem_gb=None, stdout_path=None):
             lim = int(mem_gb * (1 << 30))
             resource.setrlimit(resource.RLIMIT_AS, (lim, lim))
     t0 = time.time()
+    import signal
+    f = open(stdout_path, 'wb') if stdout_path else None
+    p = subprocess.Popen(cmd, cwd=cwd, env=e, stdout=f or subprocess.PIPE, stderr=subprocess.STDOUT, preexec_fn=pre, start_new_session=True)
+    _LIVE.add(p.pid)
+    timed_out = False
     try:
-        if stdout_path:
-            with open(stdout_path, 'wb') as f:
-                p = subprocess.run(cmd, cwd=cwd, env=e, stdout=f, stderr=subprocess.STDOUT, timeout=timeout, preexec_fn=pre, start_new_session=True)
-            out = open(stdout_path, 'rb').read().decode('utf-8', 'replace')
-        else:
-            p = subprocess.run(cmd, cwd=cwd, env=e, stdout=subprocess.PIPE, stderr=subprocess.STDOUT, timeout=timeout, preexec_fn=pre, start_new_session=True)
-            out = p.stdout.decode('utf-8', 'replace')
-        return p.returncode, out, time.time() - t0
-    except subprocess.TimeoutExpired as ex:
-        out = ''
-        if stdout_path and os.path.exists(stdout_path):
-            out = open(stdout_path, 'rb').read().decode('utf-8', 'replace')
-        elif ex.stdout:
-            out = ex.stdout.decode('utf-8', 'replace')
-        subprocess.run(['pkill', '-x', 'cbmc'], check=False) if False else None
-        return 124, out, time.time() - t0
+        outb, _ = p.communicate(timeout=timeout)
+    except subprocess.TimeoutExpired:
+        timed_out = True
+        # the whole process group: cargo-kani -> kani-driver -> cbmc must not outlive the check
+        try:
+            os.killpg(p.pid, signal.SIGKILL)
+        except OSError:
+            pass
+        outb, _ = p.communicate()
+    finally:
+        _LIVE.discard(p.pid)
+        if f:
+            f.close()
+    if stdout_path:
+        out = open(stdout_path, 'rb').read().decode('utf-8', 'replace')
+    else:
+        out = (outb or b'').decode('utf-8', 'replace')
+    return (124 if timed_out else p.returncode), out, time.time() - t0
+
+
+_LIVE = set()
+
+
+def _kill_children(*_a):
+    import signal
+    for pid in list(_LIVE):
+        try:
+            os.killpg(pid, signal.SIGKILL)
+        except OSError:
+            pass
+
+
+def install_cleanup():
+    """a check that is interrupted takes its solver processes with it"""
+    import atexit
+    import signal
+    atexit.register(_kill_children)
+
+    def h(signum, _frame):
+        _kill_children()
+        os._exit(130)
+    signal.signal(signal.SIGTERM, h)
+    signal.signal(signal.SIGINT, h)
 
 
 def known_findings():
